@@ -35,6 +35,9 @@ ForeachDelStep(m, c) == IF c.visited = KeysOf(m) THEN Yes(Remove(m, {c.ks[i] : i
 \* any read-only traversal (visitor): c.ret = 0, state unchanged; what it saw is checked as an observation
 VisitStep(m, c) == IF c.ret = 0 THEN Yes(m) ELSE No(m)
 
+\* lh_table_resize with a caller-chosen capacity (c.v): never visible in the map; may fail only on a failed allocation
+ResizeStep(m, c) == IF c.ret = 0 THEN Yes(m) ELSE Refused(m, c)
+
 CallStep(m, c) ==
     IF c.op = "add" THEN AddStep(m, c)
     ELSE IF c.op = "addnew" THEN AddNewStep(m, c)
@@ -42,6 +45,7 @@ CallStep(m, c) ==
     ELSE IF c.op = "get" THEN GetStep(m, c)
     ELSE IF c.op = "fdel" THEN ForeachDelStep(m, c)
     ELSE IF c.op = "visit" THEN VisitStep(m, c)
+    ELSE IF c.op = "resize" THEN ResizeStep(m, c)
     ELSE No(m)
 
 Init == om = <<>>
